@@ -128,6 +128,13 @@ static int gen_case_inner(rng_t *r, const char *op, const genopt_t *g, sbuf_t *o
     if (IS("djb")) { if (m > 300) m = 1 + m % 300; if (l > 300) l = 1 + l % 300; if (rng_chance(r, 1, 2)) { if (m < 24) m += 24; if (l < 24) l += 24; } } /* large enough for the compiled program to outgrow its initial 64 entries */
     if (IS("mul_naive") || IS("addmul_naive") || IS("mul_va")) { if (m > 400) m = 1 + m % 400; }
     emit_mat(r, o, rb + 1, m, l, NULL, 0);
+    if (IS("djb") && g_winprob && rng_chance(r, 1, 2)) { /* the map is applied row by row with the two-operand XOR kernel: V as a view (its rows may be 8-mod-16 aligned) wide enough for the vector loop */
+      int save = g_winprob;
+      if (n < 129) n += 129;
+      g_winprob = 16;
+      emit_mat(r, o, rb + 2, l, n, NULL, 0);
+      g_winprob = save;
+    } else
     emit_mat(r, o, rb + 2, l, n, NULL, 0);
     int need_c = IS("addmul_naive") || IS("mul_va") || IS("addmul_m4rm") || IS("addmul") || IS("addmul_mp");
     if (IS("djb")) supplied = 0;
